@@ -278,7 +278,7 @@ def model_request(case, obs, dry_override=None):
     answers = []
     for a in case["answers"]:
         answers.append({"stop": "s", "ignore": "i", "override": "o"}.get(a[0]) or ("C" + enc_str(a[1])))
-    renamer = "dry" if dry else ("path" if case["mode"] == "path" else "name")
+    renamer = ("drypath" if case["mode"] == "path" else "dry") if dry else ("path" if case["mode"] == "path" else "name")
     fault = "-" if (dry or case.get("fault_at") is None) else str(case["fault_at"])
     return ("run " + " ".join([renamer, case["strategy"], fault, enc_list(entries), enc_list(files), enc_list(gens),
                                enc_list(answers)]), ids, contents)
